@@ -290,3 +290,130 @@ def c02_s2(run):
     if not n_ok:
         raise Inconclusive('vacuity: no accepting path')
     run.require_reached(*run.cur.reach)
+
+
+# ----------------------------------------------------------------------------------------------------------------- IBC relay / client recovery (penumbra handlers are oracles)
+def ibc_relay_obligation(run):
+    def h_handler(ctx):
+        st = ctx.st; okv = z3.Bool('ibc_handler_ok')
+        st.log.append(('ibc_handler', ctx.callee.split('::')[-1]))
+        return [(None, M.thunk_future(lambda ex, s2, fut: [(okv, ok(())), (z3.Not(okv), (lambda s3: err(Obj('anyhow::Error', kind='error'))))]))]
+    ex, W = A.engine(extra_hooks=[(_re.compile(r'^[^{]*IbcRelayWithHandlers<[^{]*>::check_and_execute(::<[^{]*>)?$'), h_handler)])
+    run.bound(state='arbitrary symbolic chain state', action='arbitrary IbcRelay message and signer',
+              handler='IbcRelayWithHandlers::check_and_execute (penumbra-ibc; client / connection / channel / packet handling) is an oracle: succeeds or fails arbitrarily; its writes to IBC-module state are not modelled')
+    w0, res = A.run_action(run, ex, W, 'IbcRelay', allow_havoc=(r'^Arguments::|fmt::',))
+    n_ok = n_err = 0
+    a = z3.BitVec('any_addr', 160)
+    for i, (p, kind, r, me) in enumerate(res):
+        if kind == 'panic':
+            run.prove(f'no panic [path {i}]', p.pc, z3.BoolVal(False), detail=p.info); continue
+        handled = [e for e in p.log if e[0] == 'ibc_handler']
+        run.sample({'path': i, 'result': kind, 'handler_calls': len(handled), 'writes': [e[1] for e in p.log if e[0] == 'write']})
+        signer = A.signer_of(ex, W, p, me)
+        is_relayer = z3.Select(w0['ibc_relayer'], signer)
+        if handled:
+            run.prove(f'the IBC handlers run only for a signer in the current relayer set [path {i}]', p.pc, is_relayer)
+        if kind == 'Ok':
+            n_ok += 1
+            run.prove(f'a successful IbcRelay is signed by a current IBC relayer and went through the handlers exactly once [path {i}]', p.pc, z3.And(is_relayer, z3.BoolVal(len(handled) == 1), z3.Bool('ibc_handler_ok')))
+            for label, claim in A.c02_claims(w0, p.world, signer):
+                run.prove(f'{label} [path {i}]', p.pc, claim)
+        else:
+            n_err += 1
+        run.prove(f'IbcRelay::execute itself writes nothing outside the handlers [path {i}]', p.pc, A.unchanged(w0, p.world))
+    if n_ok == 0 or n_err == 0:
+        raise Inconclusive('vacuity: need both a successful and a rejected path')
+    run.require_reached(*run.cur.reach)
+
+
+obligation('C02', 'C02-IbcRelay only a current IBC relayer reaches the IBC handlers')(ibc_relay_obligation)
+
+
+def recover_ibc_client_obligation(run):
+    CS = 'ibc_types::lightclients::tendermint::client_state::ClientState'
+
+    def h_status(ctx):
+        st = ctx.st
+        n = sum(1 for e in st.log if e[0] == 'client_status')
+        st.log.append(('client_status', n))
+        active = z3.Bool(f'client_status_active_{n}')
+        a = ctx.ex.adts.lookup('ClientStatus')
+        o = Obj(a['path'] if a else 'ClientStatus'); o.attrs['active'] = active
+
+        def alts(ex, s2, fut):
+            def mk(name):
+                def f(s3):
+                    v = Obj(o.ty); v.discr = name
+                    return v
+                return f
+            return [(active, mk('Active')), (z3.Not(active), mk('Expired'))]
+        return [(None, M.thunk_future(alts))]
+
+    def h_client_state(ctx):
+        st = ctx.st
+        n = sum(1 for e in st.log if e[0] == 'client_state')
+        st.log.append(('client_state', n))
+        okv = z3.Bool(f'client_state_found_{n}')
+
+        def mk(s3):
+            o = Obj(CS, kind='opaque'); o.attrs['which'] = n
+            return ok(o)
+        return [(None, M.thunk_future(lambda ex, s2, fut: [(okv, mk), (z3.Not(okv), (lambda s3: err(Obj('anyhow::Error', kind='error'))))]))]
+
+    def h_cmp(ctx):
+        return [(None, z3.Bool('subject_height_lt_substitute'))]
+
+    def h_fields_match(ctx):
+        okv = z3.Bool('required_fields_match')
+        return [(okv, ok(())), (z3.Not(okv), (lambda s: err(Obj('eyre::Report', kind='error'))))]
+
+    def h_get_cons(ctx):
+        okv = z3.Bool('consensus_state_found')
+        ctx.st.log.append(('read_consensus_state',))
+        return [(None, M.thunk_future(lambda ex, s2, fut: [(okv, (lambda s3: ok(Obj('ConsensusState', kind='opaque')))), (z3.Not(okv), (lambda s3: err(Obj('anyhow::Error', kind='error'))))]))]
+
+    def h_put_cons(ctx):
+        okv = z3.Bool('consensus_state_put_ok')
+        ctx.st.log.append(('ibc_client_write', 'consensus_state'))
+        return [(None, M.thunk_future(lambda ex, s2, fut: [(okv, ok(())), (z3.Not(okv), (lambda s3: err(Obj('anyhow::Error', kind='error'))))]))]
+
+    def h_put_client(ctx):
+        ctx.st.log.append(('ibc_client_write', 'client'))
+        return [(None, ())]
+    hooks = [(_re.compile(r'^<[^{]* as [\w:]*ClientStateReadExt>::get_client_status'), h_status),
+             (_re.compile(r'^<[^{]* as [\w:]*ClientStateReadExt>::get_client_state'), h_client_state),
+             (_re.compile(r'^<[^{]* as [\w:]*(ClientStateReadExt|ConsensusStateReadExt)>::get_verified_consensus_state'), h_get_cons),
+             (_re.compile(r'^<[^{]* as [\w:]*(ClientStateWriteExt|ConsensusStateWriteExt)>::put_verified_consensus_state'), h_put_cons),
+             (_re.compile(r'^<[^{]* as [\w:]*ClientStateWriteExt>::put_client'), h_put_client),
+             (_re.compile(r'Height as PartialOrd>::(lt|le|gt|ge)$'), h_cmp),
+             (_re.compile(r'ClientState::latest_height$'), lambda ctx: [(None, Obj('Height', kind='opaque'))]),
+             (_re.compile(r'(^|::)ensure_required_client_state_fields_match$'), h_fields_match)]
+    ex, W = A.engine(extra_hooks=hooks)
+    run.bound(state='arbitrary symbolic chain state', action='arbitrary RecoverIbcClient (subject / substitute client ids) and signer',
+              ibc='penumbra client-state reads (status, client state, consensus state) are oracles with arbitrary answers; ensure_required_client_state_fields_match is an oracle (ok / err); client writes are logged effects')
+    w0, res = A.run_action(run, ex, W, 'RecoverIbcClient', allow_havoc=(r'^Arguments::|fmt::', r'Clone>::clone$', r'ChainId|Duration|Height'))
+    n_ok = n_err = 0
+    for i, (p, kind, r, me) in enumerate(res):
+        if kind == 'panic':
+            run.prove(f'no panic [path {i}]', p.pc, z3.BoolVal(False), detail=p.info); continue
+        writes = [e for e in p.log if e[0] == 'ibc_client_write']
+        run.sample({'path': i, 'result': kind, 'client_writes': [e[1] for e in writes], 'status_reads': sum(1 for e in p.log if e[0] == 'client_status')})
+        signer = A.signer_of(ex, W, p, me)
+        gate = z3.And(signer == w0['sudo'], z3.Not(z3.Bool('client_status_active_0')), z3.Bool('client_status_active_1'), z3.Bool('subject_height_lt_substitute'), z3.Bool('required_fields_match'))
+        if writes:
+            run.prove(f'IBC client state is written only for the sudo signer, a non-active subject, an active higher substitute with matching parameters [path {i}]', p.pc, gate)
+        if kind == 'Ok':
+            n_ok += 1
+            run.prove(f'a successful RecoverIbcClient passed every gate and wrote the consensus state and the client [path {i}]', p.pc,
+                      z3.And(gate, z3.BoolVal([e[1] for e in writes] == ['consensus_state', 'client'])))
+            for label, claim in A.c02_claims(w0, p.world, signer):
+                run.prove(f'{label} [path {i}]', p.pc, claim)
+        else:
+            n_err += 1
+        run.prove(f'RecoverIbcClient writes nothing outside the IBC client store [path {i}]', p.pc, A.unchanged(w0, p.world))
+    if n_ok == 0 or n_err == 0:
+        raise Inconclusive('vacuity: need both a successful and a rejected path')
+    run.require_reached(*run.cur.reach)
+
+
+obligation('C02', 'C02-RecoverIbcClient only the sudo address replaces an IBC client, and only a non-active one by an active one')(recover_ibc_client_obligation)
